@@ -3,7 +3,7 @@
 From Coq Require Import List NArith ZArith Bool Arith Lia.
 From SK Require Import lib.Tok lib.LGraph lib.Mono.
 From SK Require model.C06_Model model.C11_Model.
-From SK Require Import model.C03_Model model.C05_Model proof.C05_Proof proof.C05_Glue proof.C05_Pipe proof.C05_Prep proof.C05_Comp proof.C05_Main proof.C05_Order proof.C05_Sub proof.C05_Set proof.C05_Result.
+From SK Require Import model.C03_Model model.C05_Model proof.C05_Proof proof.C05_Glue proof.C05_Pipe proof.C05_Prep proof.C05_Comp proof.C05_Main proof.C05_Order proof.C05_Sub proof.C05_Set proof.C05_Result proof.C05_AllStrat proof.C05_PrepOrder proof.C05_Final.
 From SK Require Import lib.C06_Spec proof.C06_Comp proof.C06_Main.
 Import ListNotations.
 
@@ -197,4 +197,90 @@ Proof.
   apply (glued_set_rewriting sz_sg sz_pi sz_sg_inj sz_pi_inj hx_host hx_host_r2 hx_p (relabel_prep sz_sg hx_p) S1 S2 hx_same_r).
   - apply same_graph_refl. apply C03_Proof.nodupb_NoDup. vm_compute. reflexivity.
   - apply same_graph_refl. apply C03_Proof.nodupb_NoDup. vm_compute. reflexivity.
+Qed.
+
+(** ** every strategy under re-ordering: disulfide formation on SCCS.CS written backwards (component-aware search
+    smaller than the exhaustive one: 2 vs 3 glued graphs) *)
+Definition ds_host2 : hostg :=
+  LG (rev (gnodes ds_host)) (map (fun e : N * N * Z => let '(a, b, o) := e in (b, a, o)) (rev (gedges ds_host))).
+
+Lemma ds_same : same_graph ds_host ds_host2.
+Proof.
+  split; [|split; [|split; [|split]]].
+  - intros u. unfold label; simpl.
+    repeat match goal with |- context [N.eqb u ?k] => destruct (N.eqb_spec u k); [subst u; simpl; try reflexivity|] end; reflexivity.
+  - intros u v. unfold LGraph.adj, ds_host2, ds_host. cbn [gedges rev map app find_edge].
+    repeat match goal with
+           | |- context [N.eqb ?k u] => destruct (N.eqb_spec k u); [subst u|]
+           | |- context [N.eqb ?k v] => destruct (N.eqb_spec k v); [subst v|]
+           end; cbn; try reflexivity; try congruence.
+  - intros u. simpl. tauto.
+  - simpl. repeat constructor; simpl; intuition discriminate.
+  - simpl. repeat constructor; simpl; intuition discriminate.
+Qed.
+
+Lemma ds_side (h : hostg) : side_okb h ds_p = true ->
+  (comp_bound (C06_Model.monos_on (host_c06 h) (pat_c06 (p_pat ds_p))) true (host_c06 h) (pat_c06 (p_pat ds_p)) <=? DEFAULT_THRESHOLD)%N = true ->
+  side_ok_c h ds_p.
+Proof. intros A B. split; [apply side_okb_ok; exact A | apply N.leb_le; exact B]. Qed.
+
+Example glued_set_invariant_any_nonvacuous :
+  gnodes ds_host2 <> gnodes ds_host /\
+  length (glued_of 1%N ds_host ds_p) = 2%nat /\ length (glued_of 0%N ds_host ds_p) = 3%nat /\
+  (forall T, In T (glued_of 1%N ds_host ds_p) -> exists T', In T' (glued_of 1%N ds_host2 ds_p) /\ obs_eq T T') /\
+  (forall T, In T (glued_of 2%N ds_host ds_p) -> exists T', In T' (glued_of 2%N ds_host2 ds_p) /\ obs_eq T T') /\
+  (forall T, In T (glued_of 0%N ds_host ds_p) -> exists T', In T' (glued_of 0%N ds_host2 ds_p) /\ obs_eq T T').
+Proof.
+  assert (S1 : side_ok_c ds_host ds_p) by (apply ds_side; vm_compute; reflexivity).
+  assert (S2 : side_ok_c ds_host2 ds_p) by (apply ds_side; vm_compute; reflexivity).
+  assert (R : same_graph (p_rc ds_p) (p_rc ds_p)) by (apply same_graph_refl; apply C03_Proof.nodupb_NoDup; vm_compute; reflexivity).
+  assert (Q : same_graph (p_pat ds_p) (p_pat ds_p)) by (apply same_graph_refl; apply C03_Proof.nodupb_NoDup; vm_compute; reflexivity).
+  split; [vm_compute; discriminate|]. split; [vm_compute; reflexivity|]. split; [vm_compute; reflexivity|].
+  split; [|split].
+  - exact (glued_set_invariant_any 1%N ds_host ds_host2 ds_p ds_p (or_intror (or_introl eq_refl)) S1 S2 ds_same R Q).
+  - exact (glued_set_invariant_any 2%N ds_host ds_host2 ds_p ds_p (or_intror (or_intror eq_refl)) S1 S2 ds_same R Q).
+  - exact (glued_set_invariant_any 0%N ds_host ds_host2 ds_p ds_p (or_introl eq_refl) S1 S2 ds_same R Q).
+Qed.
+
+(** ** from the template: halogen exchange, template renumbered by sz_sg and written backwards, substrate renumbered by
+    sz_pi and written backwards *)
+Definition hx_tpl_r : its := Eval vm_compute in relabel sz_sg hx_tpl.
+Definition hx_tpl_r2 : its :=
+  LG (rev (gnodes hx_tpl_r)) (map (fun e : N * N * iedge => let '(a, b, o) := e in (b, a, o)) (rev (gedges hx_tpl_r))).
+
+Lemma hx_tpl_same : same_graph (relabel sz_sg hx_tpl) hx_tpl_r2.
+Proof.
+  change (relabel sz_sg hx_tpl) with hx_tpl_r.
+  split; [|split; [|split; [|split]]].
+  - intros u. unfold label; simpl.
+    repeat match goal with |- context [N.eqb u ?k] => destruct (N.eqb_spec u k); [subst u; simpl; try reflexivity|] end; reflexivity.
+  - intros u v. unfold LGraph.adj, hx_tpl_r2, hx_tpl_r. cbn [gedges rev map app find_edge].
+    repeat match goal with
+           | |- context [N.eqb ?k u] => destruct (N.eqb_spec k u); [subst u|]
+           | |- context [N.eqb ?k v] => destruct (N.eqb_spec k v); [subst v|]
+           end; cbn; try reflexivity; try congruence.
+  - intros u. simpl. tauto.
+  - simpl. repeat constructor; simpl; intuition discriminate.
+  - simpl. repeat constructor; simpl; intuition discriminate.
+Qed.
+
+Example pipeline_set_invariant_nonvacuous :
+  gnodes hx_tpl_r2 <> gnodes (relabel sz_sg hx_tpl) /\
+  exists p'', prepare false true hx_tpl_r2 = Some p'' /\
+    pipeline false true false 0%N hx_host_r2 hx_tpl_r2 = Some (glued_of 0%N hx_host_r2 p'') /\
+    length (glued_of 0%N hx_host hx_p) = 1%nat /\
+    (forall T, In T (glued_of 0%N hx_host hx_p) -> exists T'', In T'' (glued_of 0%N hx_host_r2 p'') /\ obs_eq (relabel sz_pi T) T'').
+Proof.
+  split; [vm_compute; discriminate|].
+  assert (Hprep : prepare false true hx_tpl = Some hx_p) by (vm_compute; reflexivity).
+  assert (Hflag : p_flag hx_p = false) by (vm_compute; reflexivity).
+  assert (Hw : simple_edgesb (gedges hx_tpl) = true) by (vm_compute; reflexivity).
+  assert (Hw2 : simple_edgesb (gedges hx_tpl_r2) = true) by (vm_compute; reflexivity).
+  destruct (pipeline_set_invariant 0%N sz_sg sz_pi false hx_host hx_host_r2 hx_tpl hx_tpl_r2 hx_p (or_introl eq_refl)
+              sz_sg_inj sz_pi_inj Hprep Hflag Hw Hw2 hx_same_r hx_tpl_same) as (p2 & H1 & _ & _ & H4 & H5).
+  assert (E : p2 = prep_of false hx_tpl_r2) by (unfold prep_of; rewrite H1; reflexivity).
+  exists p2. split; [exact H1|]. split; [exact H4|]. split; [vm_compute; reflexivity|].
+  apply H5.
+  - split; [apply side_okb_ok; vm_compute; reflexivity | apply N.leb_le; vm_compute; reflexivity].
+  - subst p2. split; [apply side_okb_ok; vm_compute; reflexivity | apply N.leb_le; vm_compute; reflexivity].
 Qed.
